@@ -1301,3 +1301,172 @@ def rule_matched_index_used(ctx, files=("hdf/src/vg.c", "hdf/src/vsfld.c", "hdf/
                 ctx.holds("MATCHIDX", key, f.where(node_line(nd)), "sibling tables of `%s` are read at the matched index `%s`" % (recr, jv), nontrivial=True)
     ctx.floor("MATCHIDX", 2, n, "(name matches that read sibling tables)")
     return n
+
+
+# ---------------------------------------------------------------------------------------------------------------------
+def _excludes_zero(cond, var, positive):
+    """does `cond` being true establish var > 0 (positive=True: `var > 0`, `var != 0`, `var`, as a conjunct), or does cond
+    being true cover var == 0 (positive=False: `var == 0`, `var <= 0`, `var < 1`, `!var`, as a disjunct)?"""
+    c = strip(cond)
+    if kind(c) == "bin" and c[1] == ("&&" if positive else "||"):
+        return _excludes_zero(c[2], var, positive) or _excludes_zero(c[3], var, positive)
+
+    def isv(e):
+        e = strip(e)
+        return kind(e) == "var" and e[1] == var
+
+    if positive:
+        if isv(c):
+            return True
+        if kind(c) == "bin":
+            if isv(c[2]) and ((c[1] in (">", "!=") and is_int(c[3], 0)) or (c[1] == ">=" and is_int(c[3], 1))):
+                return True
+            if isv(c[3]) and ((c[1] in ("<", "!=") and is_int(c[2], 0)) or (c[1] == "<=" and is_int(c[2], 1))):
+                return True
+        return False
+    if kind(c) == "un" and c[1] == "!" and isv(c[2]):
+        return True
+    if kind(c) == "bin":
+        if isv(c[2]) and ((c[1] in ("==", "<=") and is_int(c[3], 0)) or (c[1] == "<" and is_int(c[3], 1))):
+            return True
+        if isv(c[3]) and ((c[1] in ("==", ">=") and is_int(c[2], 0)) or (c[1] == ">" and is_int(c[2], 1))):
+            return True
+    return False
+
+
+def _terminates(nd):
+    """does the statement (or block) always leave by return or goto?"""
+    if nd is None:
+        return False
+    if nd[0] == "block":
+        return bool(nd[1]) and _terminates(nd[1][-1])
+    if nd[0] == "goto":
+        return True
+    if nd[0] == "do" and is_int(nd[2], 0):    # the do { .. } while (0) of the error macros
+        return _terminates(nd[1])
+    if nd[0] == "s":
+        return kind(nd[1]) == "ret"
+    if nd[0] == "if":
+        return nd[3] is not None and _terminates(nd[2]) and _terminates(nd[3])
+    return False
+
+
+def rule_do_loop_entry(ctx, floor=4):
+    """DOENTRY (C01, C03): `do { transfer(min(n, left)); left -= n; } while (left > 0)` runs its body once whatever `left` is.
+    With left == 0 the body hands a length of 0 to the transferring call - and for Hread 0 means "everything up to the end of
+    the element", so a read positioned at the end of a linked-block element copies a whole block into a buffer that was not
+    sized for it.  Every do-loop that continues on `left > 0` is entered only where left is known to be positive: inside an
+    `if (left > 0 ...)`, or after an `if (left == 0 / <= 0 ...)` that leaves the function, with no new value for left in
+    between (a local freshly initialised from another variable inherits that variable's guard)."""
+    prog = ctx.prog
+    n = 0
+    for f in prog.lib_funcs():
+        occ = 0
+        for lp, st in loops_of(f):
+            if lp[0] != "do":
+                continue
+            c = strip(lp[2])
+            if not (kind(c) == "bin" and c[1] == ">" and kind(strip(c[2])) == "var" and is_int(c[3], 0)):
+                continue
+            var = strip(c[2])[1]
+            occ += 1
+            n += 1
+            key = "DOENTRY:%s:%s#%d" % (f.name, var, occ)
+            line = node_line(lp)
+            chain = st + [lp]
+            names = {var}
+            ok = None
+            # walk outwards: statements before the loop, nearest first
+            for lvl in range(len(chain) - 2, -1, -1):
+                anc, child = chain[lvl], chain[lvl + 1]
+                if anc[0] == "if":
+                    if child is anc[2] and any(_excludes_zero(anc[1], v, True) for v in names):
+                        ok = "inside `if (%s)`" % render(strip(anc[1]))[:60]
+                        break
+                    continue
+                if anc[0] in ("for", "while", "do"):
+                    break                     # the loop is re-entered from an enclosing loop: guards outside it say nothing
+                if anc[0] != "block":
+                    continue
+                kids = anc[1]
+                idx = next((i for i, k in enumerate(kids) if k is child), None)
+                if idx is None:
+                    continue
+                stop = False
+                for k in reversed(kids[:idx]):
+                    if k[0] == "if" and _terminates(k[2]) and any(_excludes_zero(k[1], v, False) for v in names):
+                        ok = "after `if (%s)` has left the function" % render(strip(k[1]))[:60]
+                        break
+                    # a new value for the variable: follow a plain copy, stop at anything else
+                    for e, _nd in reversed(seq_of(k)):
+                        for v in list(names):
+                            if not redefines(e, v):
+                                continue
+                            src = None
+                            for x in walk(e, True):
+                                if x[0] == "asg" and x[1] == "=" and kind(strip(x[2])) == "var" and strip(x[2])[1] == v and kind(strip(x[3])) == "var":
+                                    src = strip(x[3])[1]
+                            if src and k[0] == "s":
+                                names.discard(v)
+                                names.add(src)
+                            else:
+                                stop = True
+                        if kind(e) == "decl":
+                            for d in e[1]:
+                                if d[0] in names:
+                                    if d[2] is not None and kind(strip(d[2])) == "var":
+                                        names.discard(d[0])
+                                        names.add(strip(d[2])[1])
+                                    else:
+                                        stop = True
+                    if stop:
+                        break
+                if ok or stop:
+                    break
+            if ok:
+                ctx.holds("DOENTRY", key, f.where(line), "`do .. while (%s > 0)` is entered %s" % (var, ok), nontrivial=True)
+            else:
+                ctx.violated("DOENTRY", key, f.where(line), "`do .. while (%s > 0)` is entered without `%s` being known positive: with 0 left its body still runs once and hands a length of 0 to the transfer (for Hread: the rest of the element)" % (var, var))
+    ctx.floor("DOENTRY", floor, n, "(do-loops that continue while a remaining count is positive)")
+    return n
+
+
+def rule_member_scan_bound(ctx):
+    """MEMBERSCAN (C17, C08): a Vgroup's members are numbered 0 .. Vntagrefs-1 and are visited with
+    `for (i = 0; i < n; i++) Vgettagref(vg, i, ..)`.  The loop that indexes Vgettagref with its own counter runs to the member
+    count itself - `i < n` with n a variable (or the Vntagrefs call), not `i < n - 1`, not `<=`: the clean-up of a Vgroup that
+    leaves its last member standing keeps the old object's record in the file, and the rewrite that follows lands on it in
+    place, ahead of the flush."""
+    prog = ctx.prog
+    n = 0
+    for f in prog.funcs:
+        k = 0
+        for lp, st in loops_of(f):
+            if lp[0] != "for" or lp[2] is None:
+                continue
+            idxs = set()
+            for e, nd in seq_of(loop_body(lp)):
+                for c in calls_in(e, True):
+                    if c[1] == "Vgettagref" and len(c[3]) > 1 and kind(strip(c[3][1])) == "var":
+                        idxs.add(strip(c[3][1])[1])
+            if not idxs:
+                continue
+            # the loop's own counter: the variable its condition compares
+            cmp_ = None
+            for x in walk(lp[2], True):
+                if x[0] == "bin" and x[1] in ("<", "<=", ">", ">=", "!=") and kind(strip(x[2])) == "var" and strip(x[2])[1] in idxs:
+                    cmp_ = x
+            if cmp_ is None:
+                continue
+            k += 1
+            n += 1
+            key = "MEMBERSCAN:%s#%d" % (f.name, k)
+            line = node_line(lp)
+            b = strip(cmp_[3])
+            plain = kind(b) == "var" or (kind(b) == "call" and b[1] == "Vntagrefs") or kind(b) == "mem"
+            if cmp_[1] == "<" and plain:
+                ctx.holds("MEMBERSCAN", key, f.where(line), "members are visited while `%s`" % render(cmp_)[:50], nontrivial=True)
+            else:
+                ctx.violated("MEMBERSCAN", key, f.where(line), "the member loop runs while `%s`: its bound is not the member count itself, so the scan stops short of (or runs past) the last member" % render(cmp_)[:60])
+    ctx.floor("MEMBERSCAN", 10, n, "(loops that index Vgettagref with their counter)")
+    return n
